@@ -9,4 +9,5 @@ Definition writable_globals : list (string * string) :=
    ("load", "libxmp_verif_pregate");
    ("loaders_vorbis", "crc_table");
    ("mixer", "libxmp_verif_wraparound.ld");
-   ("mixer", "libxmp_verif_wraplog")].
+   ("mixer", "libxmp_verif_wraplog");
+   ("scan", "libxmp_verif_scanlog")].
